@@ -83,6 +83,9 @@ fn rep_envelope(ctx: &mut Ctx) {
         reqs.push(r);
     }
     let replies: Vec<Vec<Vec<u8>>> = (0..nreq).map(|i| draw_payload(ctx, 500 + i * 10)).collect();
+    // some requests stay unanswered (the application goes on to the next recv): the reply to a
+    // later request retraces that request's route, not the route of an earlier one
+    let unanswered: Vec<bool> = (0..nreq).map(|i| i + 1 < nreq && ctx.plan(5) == 0).collect();
     let viol: Viol = Rc::new(RefCell::new(Vec::new()));
     let done = Rc::new(RefCell::new(false));
     let (vl, dn) = (viol.clone(), done.clone());
@@ -124,6 +127,10 @@ fn rep_envelope(ctx: &mut Ctx) {
                     if got != *payload {
                         vl.borrow_mut().push(("rep_recv_payload_modified", format!("request {i}: wire {} -> recv {} expected {}", show_msg(&r.wire()), show_msg(&got), show_msg(payload))));
                         return world::park().await;
+                    }
+                    if unanswered[i] {
+                        rt::count("probe_request_left_unanswered");
+                        continue;
                     }
                     if let Err(e) = rep.send(to_zmq(&replies[i])).await {
                         vl.borrow_mut().push(("reply_refused", format!("reply {i} failed: {e}")));
@@ -340,7 +347,7 @@ pub fn def() -> PropDef {
     PropDef {
         id: "C07",
         level: "exploration",
-        rule: "rep_envelope: case index walks peer type (REQ/DEALER), request form (6 normal : single-frame : delimiter-last) and prefix depth 0..3, payload frame lengths drawn from the boundary grid with empty frames inside; req_envelope / end_to_end: drawn payloads; every case also draws transport segmentation and schedule; non-trivial = degenerate form, non-empty routing prefix, empty frame inside a payload, or two real sockets; distinct = distinct (plan, schedule, transport) hashes",
+        rule: "rep_envelope: case index walks peer type (REQ/DEALER), request form (6 normal : single-frame : delimiter-last) and prefix depth 0..3, one request in five is left unanswered before the next recv, payload frame lengths drawn from the boundary grid with empty frames inside; req_envelope / end_to_end: drawn payloads; every case also draws transport segmentation and schedule; non-trivial = degenerate form, non-empty routing prefix, empty frame inside a payload, or two real sockets; distinct = distinct (plan, schedule, transport) hashes",
         assumptions: &["requests without any empty frame are outside the statement and are not generated (except the single-frame form, which cannot hold delimiter + payload)"],
         strata: vec![
             Stratum { name: "rep_envelope", quick: 60_000, thorough: (1_000_000) * 2, exhaustive: (false, false), run: rep_envelope, what: "scripted REQ/DEALER/ROUTER-chain requests into a REP socket, reply envelope on the wire" },
